@@ -58,7 +58,7 @@ Qed.
 
 (* ====================================================================== rigid motions and scales *)
 Require Import MV.C07.Proofs_Rigid MV.C07.Proofs_MeshRigid MV.C07.Proofs_Angles MV.C07.Proofs_Interp MV.C07.Proofs_GB MV.C07.Proofs_Renum
-  MV.C07.Proofs_Count MV.C07.Proofs_GBfull.
+  MV.C07.Proofs_Count MV.C07.Proofs_GBfull MV.C07.Proofs_Findings MV.C07.Proofs_Circum.
 
 (* For EVERY rotation matrix Q (Q^T Q = I, det Q = 1), EVERY translation t and EVERY well-formed mesh:
    scalar quantities are unchanged, positions move with the mesh, directions rotate. *)
@@ -83,7 +83,10 @@ Definition rigid_invariance_statement : Prop :=
   (forall n, mean_face_area Rops m' n = mean_face_area Rops m n) /\
   (forall n, mean_cell_volume Rops m' n = mean_cell_volume Rops m n) /\
   total_area Rops m' = total_area Rops m /\
-  (verts m <> [] -> barycenter Rops m' = rg (barycenter Rops m)).
+  (verts m <> [] -> barycenter Rops m' = rg (barycenter Rops m)) /\
+  ((forall F, In F (faces m) ->
+      0 < n2 (cross (P Rops m (znth F 1 0%Z) -v P Rops m (znth F 0 0%Z)) (P Rops m (znth F 2 0%Z) -v P Rops m (znth F 0 0%Z)))) ->
+   face_circumcenter Rops m' = map (omap rg) (face_circumcenter Rops m)).
 
 Lemma rigid_invariance_proof : rigid_invariance_statement.
 Proof.
@@ -107,6 +110,7 @@ Proof.
   - intros. now apply mean_cell_volume_rigid.
   - now apply total_area_rigid.
   - now apply barycenter_mesh_rigid.
+  - intros ND. now apply face_circumcenter_rigid.
 Qed.
 
 (* non-vacuity: a genuine rotation (3-4-5 about z) and a well-formed mesh (one triangle, one tetrahedron) *)
@@ -298,3 +302,24 @@ Proof.
   - intros F [<-|[]]. split; [discriminate|]. intros v [<-|[<-|[<-|[]]]]; lia.
   - intros v Hv. exists [0; 1; 2]%Z. split; [now left|]. cbn. lia.
 Qed.
+
+(* ====================================================================== circumcentre (code as repaired by 141685d) *)
+(* whenever face_circumcenter's formula returns a point for a non-degenerate triangle (it returns None only when
+   intersect_2lines2D's |det| < 1e-12 guard fires), that point is equidistant from the three vertices and lies in
+   the triangle's plane: it IS the circumcentre.  (Before the repair the Z*h term was missing and the in-plane
+   clause failed for every triangle whose plane misses the origin.) *)
+Definition circumcenter_statement : Prop :=
+  forall A B C c : V3, 0 < n2 (cross (B -v A) (C -v A)) -> g_circumcenter Rops A B C = Some c ->
+  n2 (c -v A) = n2 (c -v B) /\ n2 (c -v A) = n2 (c -v C) /\ dotR (cross (B -v A) (C -v A)) (c -v A) = 0.
+
+Lemma circumcenter_proof : circumcenter_statement.
+Proof. exact circumcenter_equidistant. Qed.
+
+(* ====================================================================== recorded finding *)
+(* FULL statement (fails): the unit normal of a face does not depend on where its vertex list starts,
+     forall A B C D, g_face_normal A B C = g_face_normal B C D      ([A;B;C;D] and [B;C;D;A] are the same quad).
+   It holds for triangles (renumbering_statement) and for planar faces; for a skew quad it is refuted: *)
+Definition face_normal_rotation_refuted_statement : Prop :=
+  exists A B C D : V3,
+    0 < n2 (cross (B -v A) (C -v A)) /\ 0 < n2 (cross (C -v B) (D -v B)) /\
+    g_face_normal Rops A B C <> g_face_normal Rops B C D.
